@@ -1,10 +1,12 @@
 """C03: linting is total — any module the parser accepts can be linted (partial claim, level `other`).
 
-  1. framework correspondence: the multi-body functions of result/util/main/ast.comments evaluated by OPA on
+  1. framework correspondence: the multi-body functions / keyed rules of result/util/main/ast.comments/ast.imports/
+     ast.function_decls evaluated by OPA on
      regal's real bundle (value / undefined / eval_conflict_error) against Model/Framework.v + Model/Location.v;
   2. the exercised remainder (TESTING): linter.Lint with ALL rules enabled over the regal bundle, the OPA
-     conformance corpus, grammar-generated modules and mutations; any error / panic / hang on a parseable
-     module is a violation with the (minimised) module as replay;
+     conformance corpus, systematic families of parseable-but-not-compilable modules and of comment placements,
+     grammar-generated modules and mutations; any error / panic / hang on a parseable module is a violation with
+     the (minimised) module as replay;
   3. proof gate for Props/C03.v.
 """
 import base64, json, os, re
@@ -98,6 +100,31 @@ def fcase_to_coq(c):
         else:
             g = '(Some %s)' % clist('(%s, %s)' % (cZ(int(k)), clist(cstr(r) for r in v)) for k, v in sorted(got['val'].items()))
         return None if g is None else 'FID %s %s' % (clist(cs), g)
+    if h == 'imports':
+        imps = clist('{| imp_path := %s; imp_alias := %s |}' % (clist(cstr(x) for x in i['path']), copt(None if i['alias'] is None else jv(i['alias'])))
+                     for i in a['imports'])
+
+        def opt_list_obs(g, conv):
+            if g.get('err'):
+                return 'None' if g['err'] == 'eval_conflict_error' else None
+            if not g.get('defined') or not isinstance(g.get('val'), list):
+                return None
+            try:
+                return '(Some %s)' % clist(conv(x) for x in g['val'])
+            except (ValueError, TypeError, KeyError, IndexError):
+                return None
+        gi = opt_list_obs(c['got_ids'], jv)
+        gr = opt_list_obs(c['got_res'], lambda kv: '(%s, %s)' % (jv(kv[0]), clist(cstr(x) for x in kv[1])))
+        return None if gi is None or gr is None else 'FImp %s %s %s' % (imps, gi, gr)
+    if h == 'function_decls':
+        rules = clist('{| rs_name := %s; rs_args := %s |}' % (cstr(nm), 'None' if ar < 0 else '(Some %d%%nat)' % ar) for nm, ar in a['rules'])
+        if got.get('err'):
+            g = 'None' if got['err'] == 'eval_conflict_error' else None
+        elif not got.get('defined') or not isinstance(got.get('val'), dict):
+            g = None
+        else:
+            g = '(Some %s)' % clist('(%s, %d%%nat)' % (cstr(k), v) for k, v in sorted(got['val'].items()))
+        return None if g is None else 'FDecl %s %s' % (rules, g)
     if h == 'propagation':
         return 'FProp %s %s' % (clist('true' if b else 'false' for b in c['singles']), 'true' if c['got_ok'] else 'false')
     if h in ('to_set', 'to_array'):
@@ -206,8 +233,12 @@ def run(ctx):
         'evaluations': len(keep) + st['lint_calls'],
         'distinct_nontrivial': distinct + st['modules_linted'],
         'rule': 'framework cases: distinct (function, arguments) tuples evaluated by OPA and by the model; corpus: distinct parseable modules '
-                'linted with all rules enabled (bundle files, OPA conformance modules de-duplicated by text, stress shapes, grammar-generated '
-                'modules, mutations), batched per Lint call with bisection of failing batches, plus single-file runs',
+                'linted with all rules enabled (bundle files, OPA conformance modules de-duplicated by text, stress shapes, the systematic '
+                'families "uncompilable" (what the parser accepts and the compiler refuses: shadowing/duplicate imports, rule kinds under one '
+                'name, conflicting defaults, unsafe vars, recursion, unknown functions, wrong arities, assignments to taken names, with '
+                'targets, type errors) and "comment placement" (a comment at every token boundary / pair of boundaries of every bracketed '
+                'construct), grammar-generated modules, mutations), batched per Lint call with bisection of failing batches, crash isolation '
+                'and minimisation in worker processes, plus single-file runs',
         'propagation_scenarios': len(props), 'propagation_failing_singles': sorted({f for c in props if len(c['files']) == 1 and not c['got_ok'] for f in c['files']}),
         'framework_cases': len(keep), 'framework_cases_by_function': hist, 'conflict_errors_observed_outside_premises': conflicts_seen - len(set(r2)),
         'mismatch_model': len(r1), 'mismatch_spec': len(r2), 'unrepresentable': len(unrep),
